@@ -134,8 +134,13 @@ pub const OWN_GEN: u32 = 10;
 
 pub fn gen_hp(seed: u64, profile: &str, tier: Tier) -> HP {
     let mut s = Stream::new(seed, "hist-params");
-    let policy = gen_policy(&mut s);
+    let mut policy = gen_policy(&mut s);
     let mut codec = gen_codec(&mut s);
+    // C10 only: renew() may yield an identity that is different yet does not win (a tie)
+    let tie = profile == "C10" && policy.renew == RenewMode::Losing && seed % 2 == 0;
+    if tie {
+        policy.renew = RenewMode::Tie;
+    }
     if profile == "C20" {
         codec = if s.chance(1, 2) { CodecKind::Bincode } else { CodecKind::Postcard };
     }
@@ -276,6 +281,20 @@ impl<'a> Gen<'a> {
                 2 => v.push(self.update(d)),
                 3 => v.insert(0, Member::new(d.id(), 0, State::Down)),
                 _ => {}
+            }
+            return v;
+        }
+        // one batch in twenty-four holds several verdicts about the instance itself
+        if self.s.chance(1, 24) {
+            let own = d.id();
+            let inc = d.obs.snap.incarnation;
+            let mut v = vec![Member::new(own, *self.s.pick(&[0, inc, u16::MAX]), *self.s.pick(&[State::Down, State::Down, State::Suspect]))];
+            if self.s.chance(1, 2) {
+                v.push(self.update(d));
+            }
+            v.push(Member::new(own, *self.s.pick(&[0, inc, inc.saturating_add(1)]), *self.s.pick(&[State::Down, State::Suspect])));
+            if self.s.chance(1, 3) {
+                v.push(Member::new(SimId::new(own.addr, own.gen + 1), 0, State::Down));
             }
             return v;
         }
